@@ -171,6 +171,50 @@ def run(tier, seed):
         rep.states += len(lc)
         rep.distinct_n += len(lc)
         rep.bounds["length_cases"] = len(lc)
+        # (6) "arbitrary text" includes every well-formed line: the whole per-form corpus and every address shape of the C02
+        # grid (under one instruction per operand position), on the sanitizer build, in plain, fitting and counting mode
+        if not rep.expired():
+            from . import c16
+            from .. import isa, shapes
+            texts = sorted({t for t, _ in c16.base_lines("quick")})
+            for sh in shapes.grid("quick"):
+                b, i, sc, d, st = sh
+                m = isa.mem_text(None, b, i, sc, d, st)
+                texts += ["lea rax, " + m, "vpaddd ymm1, ymm2, " + m, "inc dword " + m]
+            hs, meta = [], []
+            for t in texts:
+                for setting, pre in (("plain", ""), ("strict+fit8", "a0\tk8\t")):
+                    hs.append("c64:p:cc\t%sA%s" % (pre, hexec.esc_fast(t + "\n")))
+                    meta.append((t, setting))
+            # in slices, so that a tree on which many of these lines crash or hang (each costs a worker restart or a time-out)
+            # is reported after the first slice with failures instead of after hours
+            nfail = 0
+            done = 0
+            STEP = 4000
+            for k in range(0, len(hs), STEP):
+                if nfail >= 20 or rep.expired():
+                    rep.cut_short("well-formed lines: stopped after %d of %d histories (%d failures so far)" % (done, len(hs), nfail))
+                    break
+                res = hexec.run(hs[k:k + STEP], variant="asan", timeout=3)
+                for (t, setting), obs in zip(meta[k:k + STEP], res):
+                    rep.evaluations += 1
+                    rep.traces += 1
+                    done += 1
+                    san = hexec.san_of(obs)
+                    disc = set()
+                    if hexec.is_crash(obs):
+                        disc.add("hang" if obs[-1].startswith("CRASH:14") else "crash")
+                        san = obs[-1]
+                    elif san:
+                        disc.add("sanitizer")
+                    if disc:
+                        nfail += 1
+                        rep.fail({"class": "corpus", "pass": "asan+ubsan", "site": site_of(san or ""), "mnemonic": t.split()[0], "setting": setting},
+                                 disc, {"kind": "len", "text": t + "\n", "setting": "plain" if setting == "plain" else "strict"},
+                                 "well-formed line %r [%s]: %s" % (t, setting, (san or "")[:200]))
+            rep.bounds["well_formed_lines"] = len(texts)
+            rep.states += len(texts)
+            rep.distinct_n += len(texts)
         rep.transitions = rep.evaluations
         rep.sample({"mode": "struct", "example_inputs": ["a[", "r0,*", " ;x\n1"]})
         rep.sample({"mode": "lines", "example_inputs": ["mov [rax+], 0x", "vperm2i128 rax, xmm1, ymm2, [rax], 1"]})
@@ -187,7 +231,7 @@ def replay(r, verbose=False):
     if r["kind"] == "len":
         pre = {"plain": "", "fit4": "k4\t", "strict": "a0\t"}.get(r["setting"])
         h = ("c8192:p:cc\tN4:%s" % hexec.esc(r["text"])) if pre is None else ("c8192:p:cc\t%sA%s" % (pre, hexec.esc(r["text"])))
-        obs = hexec.run([h], variant="asan", nproc=1, timeout=20)[0]
+        obs = hexec.run([h], variant="asan", nproc=1, timeout=5)[0]
         if verbose:
             print(obs)
         return hexec.is_crash(obs) or bool(hexec.san_of(obs))
